@@ -87,6 +87,19 @@ var Bindings = map[string][]Binding{
 			lb("profiling.host", KString, "0.0.0.0", "127.0.0.3"),
 			lb("cache.type", KString, "noop", "in-memory"),
 		}},
+		// a free-form map of the configuration (cache.config): what one load puts there must not show up in
+		// the next load of the same process
+		{Name: "cache-config-free-map", Leaves: []LeafBinding{
+			lb("log.format", KLogFormat, "gelf", "text"),
+			lb("secrets_reload_enabled", KBool, "true", "false"),
+			lb("cache.config.max_flush_delay", KAnyString, "20us", "30us"),
+			lb("cache.config.client_cache.ttl", KAnyString, "6m", "7m"),
+			lb("cache.config.timeout.write", KAnyString, "150s", "160s"),
+			lb("cache.config.buffer_limit.read", KAnyString, "3KB", "5KB"),
+		}, Ballast: []Ballast{
+			{Path: "cache.type", Text: "redis"},
+			{Path: "cache.config.address", Text: "redis.local:6379"},
+		}},
 		{Name: "tls-cors-pointers", Leaves: []LeafBinding{
 			lb("serve.proxy.tls.key_store.path", KString, "/keys/a.pem", "/keys/b.pem"),
 			lb("serve.proxy.tls.key_id", KString, "key-a", "key-b"),
@@ -97,6 +110,24 @@ var Bindings = map[string][]Binding{
 		}},
 	},
 	// << m.n.l_s.0, m.n.l_s.1, m.n.l_s.2, m.n.a, b_c >> : a list of scalars and siblings
+	// a list of twelve scalars: list indices of two digits
+	"long-list": {
+		{Name: "decision-trusted-proxies-12", Leaves: []LeafBinding{
+			lb("serve.decision.trusted_proxies.0", KString, "10.1.0.1", "10.2.0.0/24"),
+			lb("serve.decision.trusted_proxies.1", KString, "10.1.0.2", "10.2.1.0/24"),
+			lb("serve.decision.trusted_proxies.2", KString, "10.1.0.3", "10.2.2.0/24"),
+			lb("serve.decision.trusted_proxies.3", KString, "10.1.0.4", "10.2.3.0/24"),
+			lb("serve.decision.trusted_proxies.4", KString, "10.1.0.5", "10.2.4.0/24"),
+			lb("serve.decision.trusted_proxies.5", KString, "10.1.0.6", "10.2.5.0/24"),
+			lb("serve.decision.trusted_proxies.6", KString, "10.1.0.7", "10.2.6.0/24"),
+			lb("serve.decision.trusted_proxies.7", KString, "10.1.0.8", "10.2.7.0/24"),
+			lb("serve.decision.trusted_proxies.8", KString, "10.1.0.9", "10.2.8.0/24"),
+			lb("serve.decision.trusted_proxies.9", KString, "10.1.0.10", "10.2.9.0/24"),
+			lb("serve.decision.trusted_proxies.10", KString, "10.1.0.11", "10.2.10.0/24"),
+			lb("serve.decision.trusted_proxies.11", KString, "10.1.0.12", "10.2.11.0/24"),
+			lb("serve.decision.host", KString, "127.0.0.4", "127.0.0.5"),
+		}},
+	},
 	"string-list": {
 		{Name: "decision-trusted-proxies", Leaves: []LeafBinding{
 			lb("serve.decision.trusted_proxies.0", KString, "10.0.0.1", "10.0.1.0/24"),
